@@ -2,8 +2,8 @@
    from C13/Proofs.v and followed by Print Assumptions. The model [fd] is the
    interpreter (C13/Model.v) of the tables REGENERATED from
    odl/discr/diff_ops.py:finite_diff into Gen/FiniteDiff.v. *)
-From Coq Require Import Reals List Bool.
-From Verif Require Import Base.Num Base.Vec Base.VecR C13.Syntax Gen.FiniteDiff C13.Model C13.Proofs.
+From Coq Require Import Reals Lia List Bool.
+From Verif Require Import Base.Num Base.Vec Base.VecR Lib.Axis Lib.AxisR C13.Syntax Gen.FiniteDiff C13.Model C13.ModelNd C13.Proofs C13.ProofsNd.
 Import ListNotations.
 Local Open Scope R_scope.
 
@@ -61,3 +61,51 @@ Example adj_tables_involutive :
      Central, Central | Forward, Forward | Backward, Backward => true | _, _ => false end) all_meths = true
   /\ forallb (fun p => is_base p || is_base (adj_padding p)) all_pmodes = true.
 Proof. split; vm_compute; reflexivity. Qed.
+
+(* ---- N-d lift: arrays of EVERY shape (flat C order), every axis ----
+   [axis_ok shape m p ax]: the axis has at least 2 points and the boundary
+   tables of the pair and of its adjoint pair only read existing entries
+   (true from 3 points on for every pair, see side_conditions_hold_from_3).
+   [mdot] is the inner product of the product space (sum over components),
+   [prodn shape] the number of entries. *)
+
+(* T1: PartialDerivative along any axis of an array of any shape: the operator
+   the code returns as adjoint (minus the adjoint-table pair along the same
+   axis) satisfies <D x, y> = <x, D* y>. *)
+Theorem pderiv_adjoint_all_shapes :
+  forall (shape : list nat) (ax : nat) (m : meth) (p : pmode) (dx : R) (x y : list R),
+  (ax < length shape)%nat -> axis_ok shape m p ax -> dx <> 0 ->
+  length x = prodn shape -> length y = prodn shape ->
+  dot (pderiv shape ax m p 0 dx x) y = dot x (pderiv_adjoint shape ax m p dx y).
+Proof.
+  intros shape ax m p dx x y Hax Hok Hdx Hx Hy. unfold pderiv_adjoint.
+  rewrite dot_vopp_r. exact (pderiv_adjoint_nd shape ax m p dx x y Hax Hok Hdx Hx Hy).
+Qed.
+Print Assumptions pderiv_adjoint_all_shapes.
+
+(* T1: Gradient* = -Divergence (with the adjoint-table pair), all shapes. *)
+Theorem gradient_adjoint_all_shapes :
+  forall (shape : list nat) (m : meth) (p : pmode) (dxs x : list R) (ys : list (list R)),
+  length dxs = length shape -> length ys = length shape ->
+  (forall i, (i < length shape)%nat -> axis_ok shape m p i) ->
+  Forall (fun dx => dx <> 0) dxs ->
+  length x = prodn shape -> Forall (fun y => length y = prodn shape) ys ->
+  mdot (gradient shape m p 0 dxs x) ys = dot x (gradient_adjoint shape m p dxs ys).
+Proof. exact gradient_adjoint_nd. Qed.
+Print Assumptions gradient_adjoint_all_shapes.
+
+(* T1: Divergence* = -Gradient (with the adjoint-table pair), all shapes. *)
+Theorem divergence_adjoint_all_shapes :
+  forall (shape : list nat) (m : meth) (p : pmode) (dxs : list R) (xs : list (list R)) (y : list R),
+  length dxs = length shape -> length xs = length shape ->
+  (forall i, (i < length shape)%nat -> axis_ok shape m p i) ->
+  Forall (fun dx => dx <> 0) dxs ->
+  length y = prodn shape -> Forall (fun x => length x = prodn shape) xs ->
+  dot (divergence shape m p 0 dxs xs) y = mdot xs (divergence_adjoint shape m p dxs y).
+Proof. exact divergence_adjoint_nd. Qed.
+Print Assumptions divergence_adjoint_all_shapes.
+
+Example axis_ok_example : forall i, (i < 3)%nat -> axis_ok [3; 2; 5]%nat Forward PSymmetric i.
+Proof.
+  intros i Hi. destruct i as [|[|[|i]]]; try lia; repeat split; cbn [nth]; try lia; vm_compute; reflexivity.
+Qed.
